@@ -2,6 +2,8 @@ package main
 
 // props.go — which rules decide which property.
 
+import "strings"
+
 func init() {
 	register("C03", "log codec lossless; corruption never fabricates", func(w *World, r *Report) {
 		ruleCDC123(w, r, nil)
@@ -140,5 +142,21 @@ func init() {
 		ruleWEB6(w, r)
 		ruleWEB7(w, r)
 		ruleWEB8(w, r)
+		ruleGRDkernel(w, r) // wrong-dimension queries must come back as errors, not BLAS/index panics
+	})
+}
+
+func init() {
+	register("C18", "stored vectors and distances stay faithful across precisions and storage", func(w *World, r *Report) {
+		ruleGRDkernel(w, r)
+		ruleGRDwiden(w, r)
+		ruleGRDclamp(w, r)
+		ruleTBLprec(w, r)
+		ruleGRDown(w, r)
+		ruleGRDslot(w, r)
+		lr := w.lockAnalysis()
+		ruleLCK5f(w, r, lr, func(g string) bool {
+			return strings.HasPrefix(g, "mmap.VectorArena.") || strings.HasPrefix(g, "distance.Quantizer.")
+		})
 	})
 }
